@@ -391,8 +391,9 @@ REGISTRY = {
                   ("PsProps.C08", "Ps.Props.C08_l1_range"), ("PsProps.C08", "Ps.Props.C08_sieveSize_mod8_or_pow2"),
                   ("PsProps.C08", "Ps.Props.C08_counts_independent_of_threads"),
                   ("PsProps.C08", "Ps.Props.C08_iterator_independent")],
-        tie=combine(("cfg", streams.CFG.tie), ("sysfs", streams.SYSFS.tie), ("presieve", streams.PRESIEVE.tie),
+        tie=combine(("cfg", streams.CFG.tie), ("sysfs", streams.SYSFS.tie),
                     ("presieve-portable", on_variant("portable", streams.PRESIEVE.tie)),
+                    ("iter-portable", on_variant("portable", iter_tie)),
                     ("segment-portable", on_variant("portable", segment_tie)),
                     ("count-portable", on_variant("portable", count_tie)),
                     ("print-portable", on_variant("portable", streams.PRINT.tie))),
